@@ -105,6 +105,14 @@ def oracle_warmup(case: dict) -> Outcome:
         return out
     eps_d = torch.finfo(dt).eps
     tau = 64 * float(torch.finfo(torch.float32).eps) if k in ("adam", "adamw") else 256 * eps_d
+    # Shadow trajectory: the same torch.optim optimizer on parameters that receive, after every step, a relative perturbation of the size of the
+    # rounding differences the tolerance allows per step (tau/16).  Its distance from the unperturbed reference measures how the *reference dynamics*
+    # amplify rounding-sized differences (coupled weight decay feeds the parameter back into a gradient that Adam / RMSprop / Adagrad normalise: for
+    # elements whose own gradient is ~0 the update is a sign-like function of the parameter).  16 x that distance is added to the tolerance, and the
+    # comparison stops as uninformative once the shadow has separated by 1e-3 of the parameter norm.
+    pc = [torch.nn.Parameter(p.clone()) for p in P0]
+    Bsh = type(B)(pc, **{kk: vv for kk, vv in B.defaults.items() if kk in ("lr", "momentum", "nesterov", "weight_decay", "eps", "alpha", "betas", "foreach", "dampening")})
+    gsh = torch.Generator().manual_seed(c["seed"] + 991)
     # AdamW in torch multiplies the parameter by (1 - lr*wd) first; Shampoo adds wd*w to the direction: identical up to rounding of lr*wd*w
     cum = [0.0] * len(pa)
     steps = 0
@@ -119,6 +127,15 @@ def oracle_warmup(case: dict) -> Outcome:
         if not ok:
             return out
         B.step()
+        for cpar, g in zip(pc, grads):
+            cpar.grad = None if g is None else g.clone()
+        Bsh.step()
+        with torch.no_grad():
+            for cpar in pc:
+                cpar.mul_(1.0 + (tau / 16) * (2 * torch.rand(cpar.shape, generator=gsh, dtype=torch.float64) - 1).to(dt))
+                # plus an absolute perturbation at the bottom of the normal range: rounding in the subnormal range is not relative, and an element
+                # that sits there can be an unstable fixed point of the reference dynamics (w <- w (1 - lr*wd/eps) for |w| << eps)
+                cpar.add_((float(torch.finfo(dt).tiny) * (2 * torch.rand(cpar.shape, generator=gsh, dtype=torch.float64) - 1)).to(dt))
         if any(mask):
             steps += 1
         # Adam variants: Shampoo evaluates both bias corrections as float32 scalars; their relative error (t+2)*2^-23 / bc enters the step
@@ -132,9 +149,17 @@ def oracle_warmup(case: dict) -> Outcome:
             dev = float((a.detach().double() - b.detach().double()).norm())
             # each side rounds the parameter after every update: an absolute floor of a few ulps of w per step, on top of tau * path length
             scale = cum[i] + (4 * eps_d / tau) * (t + 1) * float(b.detach().double().norm())
-            if not math.isfinite(dev) or not math.isfinite(scale):
+            sep = float((pc[i].detach().double() - b.detach().double()).norm())
+            if not math.isfinite(dev) or not math.isfinite(scale) or not math.isfinite(sep):
                 out.classes.append("overflow_domain")
                 return out
+            walk = (tau / 16) * float(b.detach().double().norm()) * math.sqrt(t + 1.0)  # what the injected noise alone amounts to without amplification
+            out.metric("shadow_amplification", sep / walk if walk > 0 else 0.0)
+            if (sep > 30 * walk and sep > 4 * tau * scale) or (sep > 1e-3 * float(b.detach().double().norm()) + 1e-300 and sep > 64 * tau * scale):
+                out.classes.append("reference_dynamics_amplify_rounding")  # nothing can be concluded from this step on
+                out.nontrivial = steps >= 2
+                return out
+            scale = scale + 16 * sep / tau
             out.sub_evaluations += 1
             out.metric(f"dev_over_tau_scale/{k}", dev / (tau * scale) if scale > 0 else (0.0 if dev == 0 else float("inf")))
             if dev > tau * scale:
